@@ -1030,9 +1030,16 @@ fn fix_initial(_db: &dyn PDb, _id: salsa::Id, _key: Key) -> u8 {
     0
 }
 
-fn fix2_recover(_db: &dyn PDb, _cycle: &salsa::Cycle, last: &u8, value: u8, _key: Key) -> u8 {
-    // join: monotone, keeps the least fixpoint
-    *last | value
+/// a tracked function requested from inside `cycle_fn` (salsa supports that): the fetch is a point
+/// where a pending local cancellation would unwind — it must not, while a fixpoint iterates
+#[salsa::tracked(returns(copy))]
+pub fn recover_probe(_db: &dyn PDb, _key: Key) -> u8 {
+    0
+}
+
+fn fix2_recover(db: &dyn PDb, _cycle: &salsa::Cycle, last: &u8, value: u8, key: Key) -> u8 {
+    // join: monotone, keeps the least fixpoint; the probe contributes nothing to the value
+    *last | value | recover_probe(db, key)
 }
 
 fn fb_result(db: &dyn PDb, _id: salsa::Id, key: Key) -> u8 {
